@@ -114,7 +114,10 @@ func c13Scenario(c c13Case) Scenario {
 	if c.Fault == "duplicate_key" {
 		goParties = 3
 		sc.Actors = append(sc.Actors, Actor{Name: "intruder", Kind: "terminal", Steps: []Step{{Op: "dial"}, {Op: "barrier", Barrier: "go", Parties: 3},
-			{Op: "pause", PauseUs: c.TermDelay}, {Op: "write", Hex: hb(victim, 900)}, {Op: "wait_eof", DeadlineMs: 3000}, {Op: "close", Mode: c.CloseMode}, {Op: "barrier", Barrier: "intruder_done", Parties: 2}}})
+			{Op: "pause", PauseUs: c.TermDelay}, {Op: "write", Hex: hb(victim, 900)}, {Op: "wait_eof", DeadlineMs: 3000}, {Op: "close", Mode: c.CloseMode},
+			// a second attempt from a new connection (the first refusal in a process differs from later ones: it loads the time zone)
+			{Op: "dial"}, {Op: "pause", PauseUs: c.TermDelay}, {Op: "write", Hex: hb(victim, 901)}, {Op: "wait_eof", DeadlineMs: 3000}, {Op: "close", Mode: c.CloseMode},
+			{Op: "barrier", Barrier: "intruder_done", Parties: 2}}})
 	}
 	joinParties := 2
 	if c.Fault == "manager_lag" {
